@@ -71,7 +71,7 @@ PROPS = {
                 oracles=[('schedule', 40, 500)], oracle_props=['C10'], real_processes=True, arith=True),
     'C11': dict(title='output tables have the documented columns and faithfully project source rows',
                 suites=[('join', 200, 3000), ('filter_tables', 100, 1500), ('missing_pairs', 80, 1000)],
-                oracles=[('setsim', 120, 2000)], oracle_props=['C11']),
+                oracles=[('setsim', 120, 2000), ('projection', 100, 1500)], oracle_props=['C11']),
     'C12': dict(title='calls leave inputs and tokenizer untouched; no call affects a later one',
                 suites=[('session', 120, 1500), ('join', 80, 1000)], oracles=[('history', 60, 800), ('filter_objects', 60, 800)], oracle_props=['C12']),
     'C13': dict(title='joins obey transposition, threshold-refinement and operator-partition laws',
@@ -399,6 +399,42 @@ def _ed_call_affected(call):
         _lev_wrong_pair(_col_strings(call.get('ltable'), call.get('l_attr')), _col_strings(call.get('rtable'), call.get('r_attr')))
 
 
+def _join_diff_only_k8(call, model, real):
+    """K8 explains a difference between the model's and the real edit-distance join only in rows of pairs on which the
+    dependency's Levenshtein is wrong: both answers must be frames with the same columns, and every row that occurs in one
+    and not in the other (ignoring `_id` and the score of an affected pair) must belong to such a pair"""
+    import oracle as O
+    try:
+        mo, ro = model['ok'], real['ok']
+        if mo['columns'] != ro['columns']:
+            return False
+        lt, rt = call['ltable'], call['rtable']
+        kj, aj = lt['columns'].index(call['l_key']), lt['columns'].index(call['l_attr'])
+        lval = {json.dumps(r[kj], sort_keys=True): r[aj] for r in lt['rows']}
+        kj, aj = rt['columns'].index(call['r_key']), rt['columns'].index(call['r_attr'])
+        rval = {json.dumps(r[kj], sort_keys=True): r[aj] for r in rt['rows']}
+
+        def rows(fr):
+            # frames normalised by sort_rows (multiset comparison) have lost `_id` already (they carry 'n')
+            return sorted(json.dumps(r if 'n' in fr else r[1:], sort_keys=True) for r in fr['rows'])
+        a, b2 = rows(mo), rows(ro)
+        from collections import Counter
+        ca, cb = Counter(a), Counter(b2)
+        diff = list((ca - cb).elements()) + list((cb - ca).elements())
+        if not diff:
+            return True           # same rows: only `_id` / order / index differ — not what K8 is about
+        for d in diff:
+            r = json.loads(d)
+            x, y = lval.get(json.dumps(r[0], sort_keys=True)), rval.get(json.dumps(r[1], sort_keys=True))
+            if not (isinstance(x, dict) and 's' in x and isinstance(y, dict) and 's' in y):
+                return False
+            if not _lev_wrong_pair([x['s']], [y['s']]):
+                return False
+        return True
+    except Exception:      # noqa: BLE001
+        return False
+
+
 def mismatch_known(b, known, pid=None):
     """correspondence mismatches that are a listed finding (the model follows the documented / true behaviour).
     Each predicate must pin the finding down: a different disagreement has to stay a mismatch."""
@@ -414,7 +450,7 @@ def mismatch_known(b, known, pid=None):
                 if _lev_wrong_pair([req.get('a', '')], [req.get('b', '')]):
                     return k
             elif req.get('op') == 'join':
-                if _ed_call_affected(req):
+                if _ed_call_affected(req) and _join_diff_only_k8(req, b.get('model'), b.get('real')):
                     return k
             elif req.get('op') == 'session':
                 try:
@@ -423,11 +459,12 @@ def mismatch_known(b, known, pid=None):
                     same_rest = mo.get('flags') == ro.get('flags') and len(mo['outcomes']) == len(ro['outcomes'])
                 except Exception:       # noqa: BLE001
                     differing, same_rest = [], False
-                if same_rest and differing and all(_ed_call_affected(req['calls'][i]) for i in differing):
+                if same_rest and differing and all(_ed_call_affected(req['calls'][i]) and
+                                                   _join_diff_only_k8(req['calls'][i], mo['outcomes'][i], ro['outcomes'][i]) for i in differing):
                     return k
         if m.get('kind') == 'converter_series_inplace_numeric' and req.get('op') == 'converter' and req.get('mode') == 'series' \
                 and req.get('inplace') and req.get('dtype') in ('int', 'float') and any(c is not None for c in req.get('values', [])) \
-                and b['real'].get('err') == 'TypeError' and 'ok' in b.get('model', {}):
+                and b['real'].get('err') == 'TypeError' and 'Invalid value' in str(req.get('_real_err_msg', '')) and 'ok' in b.get('model', {}):
             return k
     return None
 
@@ -532,6 +569,8 @@ def dispatch_oracle(O, name, rng, n, stats, props, known_hits):
         return O.oracle_history(rng, n, stats)
     if name == 'filter_objects':
         return O.oracle_filter_objects(rng, n, stats)
+    if name == 'projection':
+        return O.oracle_projection(rng, n, stats)
     if name == 'laws':
         return O.oracle_laws(rng, n, stats)
     if name == 'validation':
